@@ -28,6 +28,16 @@ func Root() string {
 	return "/verif"
 }
 
+// OutRoot is where evidence/ and replays/ are written: /verif, except when a
+// run against a deliberately broken tree asks for a scratch location (VERIF_OUT)
+// so that the committed evidence keeps describing the unchanged tree.
+func OutRoot() string {
+	if r := os.Getenv("VERIF_OUT"); r != "" {
+		return r
+	}
+	return Root()
+}
+
 // Repo is the tree under test.
 func Repo() string {
 	if r := os.Getenv("VERIF_REPO"); r != "" {
@@ -177,15 +187,15 @@ func (r *Run) Finish() int {
 	for _, l := range knownLines {
 		fmt.Fprintln(Out, l)
 	}
-	os.MkdirAll(filepath.Join(Root(), "replays"), 0o755)
-	if old, _ := filepath.Glob(filepath.Join(Root(), "replays", r.Prop+"-*.json")); len(old) > 0 {
+	os.MkdirAll(filepath.Join(OutRoot(), "replays"), 0o755)
+	if old, _ := filepath.Glob(filepath.Join(OutRoot(), "replays", r.Prop+"-*.json")); len(old) > 0 {
 		for _, f := range old {
 			os.Remove(f)
 		}
 	}
 	for i, s := range fresh {
 		v := r.viol[s]
-		p := filepath.Join(Root(), "replays", fmt.Sprintf("%s-%d.json", r.Prop, i))
+		p := filepath.Join(OutRoot(), "replays", fmt.Sprintf("%s-%d.json", r.Prop, i))
 		data, _ := json.MarshalIndent(map[string]any{"property": r.Prop, "sig": v.Sig, "detail": v.Detail, "replay": v.Replay, "cases": r.violN[s]}, "", " ")
 		os.WriteFile(p, data, 0o644)
 		fmt.Fprintf(Out, "VIOLATION property=%s replay=%s\n", r.Prop, p)
@@ -203,9 +213,9 @@ func (r *Run) Finish() int {
 		"wall_s":      time.Since(r.start).Seconds(),
 		"violations":  len(fresh),
 	}
-	os.MkdirAll(filepath.Join(Root(), "evidence"), 0o755)
+	os.MkdirAll(filepath.Join(OutRoot(), "evidence"), 0o755)
 	data, _ := json.MarshalIndent(ev, "", " ")
-	if err := os.WriteFile(filepath.Join(Root(), "evidence", r.Prop+".json"), data, 0o644); err != nil {
+	if err := os.WriteFile(filepath.Join(OutRoot(), "evidence", r.Prop+".json"), data, 0o644); err != nil {
 		fmt.Fprintln(os.Stderr, "cannot write evidence:", err)
 		return 2
 	}
